@@ -152,11 +152,11 @@ def history_part(ctx: Ctx, cases: list[dict[str, Any]], runs: dict[int, list[tup
                 jobs.append([{"id": 0, "typ": "A", "prev": []}, {"id": 1, "typ": "C", "prev": [0]},
                              {"id": 2, "typ": "D", "prev": [1]}])
             firsts.append(pvlib.jobs_to_pv(jobs, "h"))
-    seconds = [i for i, c in enumerate(cases) if c["kind"] != "counted" and i in runs and pvlib.has(c["blk"], "fork")
+    seconds = [i for i, c in enumerate(cases) if c["kind"] not in ("counted", "partial") and i in runs and pvlib.has(c["blk"], "fork")
                and any(n == "base" and hs == 0 and "text" in rp for n, hs, rp in runs[i])]
     r.shuffle(seconds)
     seconds = seconds[: (24 if quick else 200)]
-    others = [i for i in runs if cases[i]["kind"] != "counted"]
+    others = [i for i in runs if cases[i]["kind"] not in ("counted", "partial")]
     w = pvlib.Worker(0)
     try:
         pairs = []
@@ -247,6 +247,29 @@ def run(ctx: Ctx) -> None:
                          {"id": 2, "typ": "C", "prev": [1]}])
         cases.append({"kind": "counted", "blk": ["seq", [["ev", f"counted {b} x{counts}"]]], "jobs": jobs, "classes": []})
         ctx.tick("def_counted")
+    # partial job sets: "the set of job graphs" need not be every execution of a definition.  Two or three jobs of a
+    # definition, by preference jobs that hold the same events with different links (a loop whose iterations choose
+    # differently: B then C, C then B) — whatever is learnt from them, the ingested model may not depend on the
+    # presentation.  Only the ingestion clause is judged on them (the learner is outside its sound fragment).
+    partial = []
+    for c in cases:
+        if c["kind"] in ("counted", "corpus") or len(c["jobs"]) < 3 or len(partial) >= (25 if quick else 200):
+            continue
+        groups: dict[str, list[Any]] = {}
+        for j in c["jobs"]:
+            groups.setdefault(json.dumps(sorted(e["typ"] for e in j)), []).append(j)
+        same = [g for g in groups.values() if len(g) >= 2]
+        if same:
+            g = ctx.rng.choice(same)
+            sub = ctx.rng.sample(g, 2)
+            ctx.tick("partial_same_events_other_links")
+        elif ctx.rng.random() < 0.3:
+            sub = ctx.rng.sample(c["jobs"], ctx.rng.choice([2, 3]))
+            ctx.tick("partial_random_subset")
+        else:
+            continue
+        partial.append({"kind": "partial", "blk": c["blk"], "jobs": sub, "classes": c["classes"]})
+    cases += partial
     ctx.cov["rule"] = (
         "job sets of fragment-F definitions (small exhaustive family, seeded random up to 10 events) and the corpus; "
         "presentations {base, jobs permuted, events permuted inside every job, event/job ids renamed and timestamps "
@@ -301,7 +324,7 @@ def run(ctx: Ctx) -> None:
     # ---- part B: diagrams ------------------------------------------------------------------------------
     reqs, meta = [], []
     for i, c in enumerate(cases):
-        if c["kind"] == "counted":
+        if c["kind"] in ("counted", "partial"):
             continue
         # definitions with a break (corpus or generated) are where the walk's choices hang on container order: their
         # base presentation also runs under hash seeds 3..7 in the quick tier
